@@ -119,6 +119,25 @@ pub fn c08_q_image_bounds() {
     reach!(raw.pixel(p).is_some(), "reach.inside");
 }
 
+/// `ImageDrawable::draw_sub_image` called directly (ImageRaw and SubImage) with ANY display-scale
+/// area, in particular areas that start left of / above the image: rejected or drawn, never a panic
+#[cfg_attr(kani, kani::proof, kani::unwind(6))]
+pub fn c08_q_image_draw_sub_image_direct() {
+    use embedded_graphics::image::ImageDrawable;
+    let data = [0u8; 24];
+    let raw = ImageRaw::<Gray4>::new(&data, Size::new(5, 8)).unwrap();
+    let area = Rectangle::new(dpoint(), dsize());
+    note!("area", area);
+    let mut t = Null::<Gray4>::new();
+    raw.draw_sub_image(&mut t, &area).unwrap();
+    let sub = raw.sub_image(&Rectangle::new(Point::new(1, 2), Size::new(3, 4)));
+    let area2 = Rectangle::new(dpoint(), dsize());
+    note!("area2", area2);
+    sub.draw_sub_image(&mut t, &area2).unwrap();
+    reach!(area.top_left.x < 0 && area.size.width as i32 > -area.top_left.x, "reach.straddles_left_edge");
+    reach!(area.top_left.x >= 0 && area.top_left.y >= 0 && area.top_left.x as u32 + area.size.width <= 5 && area.top_left.y as u32 + area.size.height <= 8 && area.size.width > 0 && area.size.height > 0, "reach.valid_area");
+}
+
 /// text queries with line heights up to 1024 px / 400 %, every baseline/alignment
 #[cfg_attr(kani, kani::proof, kani::unwind(9))]
 pub fn c08_q_text_queries() {
